@@ -110,13 +110,9 @@ theorem emitFold_cases (ctx : Ctx) (hnf : ctx.isFunction = false) (st : St) (n :
         exact absurd hf (by decide)
       · by_cases hcomp : c.size > ctx.outLimit
         · simp only [hcomp, if_true]
-          split
-          · exact Or.inr (Or.inl ⟨_, _, rfl⟩)
-          · exact Or.inr (Or.inr ⟨_, o, ho, rfl, rfl, rfl⟩)
+          exact Or.inr (Or.inr ⟨_, o, ho, rfl, rfl, rfl⟩)
         · simp only [hcomp, if_false]
-          split
-          · exact Or.inr (Or.inl ⟨_, _, rfl⟩)
-          · exact Or.inr (Or.inr ⟨_, o, ho, rfl, rfl, rfl⟩)
+          exact Or.inr (Or.inr ⟨_, o, ho, rfl, rfl, rfl⟩)
 
 def freshOf (st : St) : Name := "%" ++ toString st.fresh
 
